@@ -55,6 +55,8 @@ func toSymbols(s string) []string {
 			out = append(out, "NL")
 		case '\r':
 			out = append(out, "CR")
+		case '\uFFFD':
+			out = append(out, "UFFFD")
 		case 'é':
 			out = append(out, "U1")
 		case 'あ':
